@@ -62,6 +62,54 @@ partial def showTrees (m : Names) : List DTree → Names × String
     (m, if b.isEmpty then a else a ++ "," ++ b)
 end
 
+/-- visible tree: comments dropped, adjacent text merged; only elements carry a (canonical) identity -/
+partial def visTrees (m : Names) (ts : List DTree) : Names × String :=
+  let step := fun (acc : Names × List String × Str) (t : DTree) =>
+    let (m, parts, pending) := acc
+    match t with
+    | .text _ s => (m, parts, pending ++ s)
+    | .comment _ => (m, parts, pending)
+    | .elem id tag attrs cs =>
+      let parts := if pending.isEmpty then parts else parts ++ ["T:" ++ showStr pending]
+      let (m, c) := nameOf m id
+      let (m, body) := visTrees m cs
+      (m, parts ++ [s!"E{c}:{showStr tag}[" ++ ";".intercalate ((sortAttrs attrs).map fun (n, v) => n ++ "=" ++ v) ++ "]{" ++ body ++ "}"], [])
+  let (m, parts, pending) := ts.foldl step (m, [], [])
+  let parts := if pending.isEmpty then parts else parts ++ ["T:" ++ showStr pending]
+  (m, ",".intercalate parts)
+
+def runWritesVis (σ : Store) (inst : InstList) (k : Nat) (m : Names) : List String → List String → List String
+  | [], acc => acc
+  | w :: ws, acc =>
+    match w.splitOn "=" with
+    | [i, v] =>
+      match i.toNat?, v.toNat? with
+      | some i, some v =>
+        let σ' := σ.set i v
+        let (inst', k') := updateList σ' i inst k
+        let (m', out) := visTrees m (domList σ' inst')
+        runWritesVis σ' inst' k' m' ws (acc ++ [out])
+      | _, _ => acc ++ ["bad-op"]
+    | _ => acc ++ ["bad-op"]
+
+/-- `hydrate run (L vd…) <store> <writes> <ssr>`: after hydration the document shows what a client
+render shows (the SSR string itself is checked by C08/C12); the model ignores the last field -/
+def handleHydrate (line : String) : String :=
+  let parts := (line.splitOn " ").dropLast
+  match parts.getLast?, parts.dropLast.getLast? with
+  | some writes, some store =>
+    match Sexp.parse (" ".intercalate (parts.dropLast.dropLast)) with
+    | some (.list (.atom "L" :: vs)) =>
+      match vs.mapM readVD with
+      | some vs =>
+        let σ := (if store == "-" then [] else (store.splitOn ",").filterMap (·.toNat?))
+        let (inst, k) := mountList σ (VDList.ofList vs) 0
+        let (m, out) := visTrees [] (domList σ inst)
+        " | ".intercalate (runWritesVis σ inst k m (if writes == "-" then [] else writes.splitOn ",") [out])
+      | none => "bad-op"
+    | _ => "bad-op"
+  | _, _ => "bad-op"
+
 def parseStore (s : String) : Store := if s == "-" then [] else (s.splitOn ",").filterMap (·.toNat?)
 
 def runWrites (σ : Store) (inst : InstList) (k : Nat) (m : Names) : List String → List String → List String
